@@ -58,6 +58,7 @@ def cpython_sig(toks, src):
     depth = 0
     layout = []     # (kind, (line, col)) of COMMENT / NL tokens
     start = None
+    line_has_token = False
 
     def text(s, e):
         (l1, c1), (l2, c2) = s, e
@@ -76,6 +77,7 @@ def cpython_sig(toks, src):
         if n == 'FSTRING_START':
             depth = 1
             start = (l1, c1)
+            line_has_token = True
             continue
         if n in ('COMMENT', 'NL'):
             layout.append((n, s, (l1, c1)))
@@ -84,8 +86,20 @@ def cpython_sig(toks, src):
             continue
         if n == 'NEWLINE' and s == '':
             continue
+        if n == 'NEWLINE' and not line_has_token:
+            # the pure-Python tokenizer emits NEWLINE for an *empty* logical line (a lone backslash continuation followed by
+            # a blank line: '\\\n\n'); it terminates nothing, so it is layout like NL and only has to lie inside a prefix
+            layout.append(('NL', s, (l1, c1)))
+            continue
+        if n == 'NEWLINE':
+            line_has_token = False
+        elif n not in ('INDENT', 'DEDENT', 'ENDMARKER'):
+            line_has_token = True
         if n in ('ASYNC', 'AWAIT'):
             n = 'NAME'
+        if n == 'DEDENT' and out and out[-1][0] == 'INDENT':
+            out.pop()          # INDENT/DEDENT around an empty logical line (' \\\n\n'): same artefact
+            continue
         if n in ('INDENT', 'DEDENT', 'ENDMARKER'):
             out.append((n, '', l1 if n == 'INDENT' else None))
         else:
